@@ -120,10 +120,15 @@ ADV_EXCLUDE = ("sloppy_improvement",)
 
 
 def plan(tier):
-    return [("runs", 16), ("advopts", 16)]
+    return [("runs", 16), ("advopts", 16), ("stobads", 16)]
 
 
 def run_part(res, part, tier, seed, shard, nshards):
+    if part == "stobads":
+        # stobads=True on a deterministic target: the code switches StoBADS off once the target is known to be deterministic,
+        # so the default policy (and every clause) applies; runs long enough for several polls
+        return runlevel.sweep(res, dict(PROFILE, extra_opts=(("stobads", (True,), 1.0),), extra_budget=(20, 90)), 96 if tier == "quick" else 1500,
+                              seed + 23, shard, nshards, body)
     if part == "advopts":
         return runlevel.adv_sweep(res, PROFILE, tier, seed, shard, nshards, body, exclude=ADV_EXCLUDE)
     runlevel.sweep(res, PROFILE if tier == "quick" else PROFILE_T, N[tier], seed, shard, nshards, body)
